@@ -128,7 +128,8 @@ def main(argv=None):
     partial = False
     if a.tasks:
         want = a.tasks.split(",")
-        tasks = [t for t in tasks if t in want]
+        extra = list(getattr(mod, "TASKS_EXTRA", []))  # tasks beyond the property: only ever run when named explicitly
+        tasks = [t for t in tasks + [x for x in extra if x not in tasks] if t in want]
         partial = True
     jobs = [(modname, t, prop, a.tier, seed) for t in tasks]
     ctxm = mp.get_context("fork")
@@ -235,7 +236,9 @@ def main(argv=None):
         "wall_s": round(time.time() - t0, 3),
         "violations": len(violations),
     }
-    evpath = os.path.join(ROOT, "evidence", prop + ".json")
+    # a partial run (--tasks) must not replace the evidence of the registered command
+    evpath = os.path.join(ROOT, "evidence", prop + ".json") if not partial else os.path.join(ROOT, "replay_out", "partial-evidence." + prop + ".json")
+    os.makedirs(os.path.dirname(evpath), exist_ok=True)
     with open(evpath, "w") as f:
         json.dump(ev, f, indent=1, default=str)
     for ln in lines:
